@@ -1088,7 +1088,9 @@ fn light_rewrite_comment(
             let first_non_whitespace = l.find(|c| !char::is_whitespace(c));
             let left_trimmed = if let Some(fnw) = first_non_whitespace {
                 if l.as_bytes()[fnw] == b'*' && fnw > 0 {
-                    &l[fnw - 1..]
+                    // The white space in front of the `*` can be wider than one byte.
+                    let prev = l[..fnw].char_indices().next_back().map_or(0, |(i, _)| i);
+                    &l[prev..]
                 } else {
                     &l[fnw..]
                 }
